@@ -14,6 +14,14 @@ def hook_write(n, accessor_names=("h",)):
     if l.kind != "MemberExpr":
         return None
     base = l.children[0].strip() if l.children else None
+    # `hook_struct *hk = h(node); hk->left = ...`: a once-initialised local that holds the accessor's result
+    hops = 0
+    while base is not None and base.kind == "DeclRefExpr" and base.get("local") and hops < 4:
+        from . import rules_atomic as _RA
+        ini = _RA.local_inits(n.fn).get(base.d["d"])
+        if ini is None or _RA._reassigned(n.fn, base.d["d"]):
+            break
+        base, hops = std_unwrap(ini).strip(), hops + 1
     if base is not None and base.is_call() and base.callee and base.callee["n"] in accessor_names:
         args = base.args
         return (l.m, args[-1] if args else None, n.children[1])
